@@ -1,4 +1,182 @@
+(* P_C17.v — property C17: the subscription registry stays consistent and
+   acyclic, refuses cycle-closing subscriptions without side effects, delivers
+   notifications exactly, and deregistering releases the resource's queue.
+   Statements only; proofs are in proofs/Registry_proofs.v.
+   Model: model/Registry.v (src/koreo/registry.py).
+
+   [run ops empty] is the registry after the operation sequence [ops], started
+   from the empty registry; every theorem is for ALL sequences [ops] over the
+   operations register / subscribe / subscribe_only_to / unsubscribe /
+   notify_subscribers / kill_resource / deregister / get_subscribers /
+   get_subscriptions and consumer-side get_nowait[+task_done] on any queue. *)
 From Koreo Require Import Registry Registry_proofs.
-Example stub : run [] empty = empty.
-Proof. reflexivity. Qed.
-Print Assumptions stub.
+From Coq Require Import Relations.
+Local Open Scope nat_scope.
+Local Open Scope list_scope.
+
+(* "who watches whom" as a relation: a watches b *)
+Definition watches_rel (s : state) : relation nat := fun a b => In (a, b) (watches s).
+
+(* "After any sequence of registry operations the 'who watches whom' and 'who
+   is watched by whom' views are exact inverses" *)
+Theorem C17_views_inverse : forall ops a b,
+  In (a, b) (subs (run ops empty)) <-> In (b, a) (watches (run ops empty)).
+Proof. exact views_inverse. Qed.
+
+(* (the views are sets: no pair is listed twice) *)
+Theorem C17_views_are_sets : forall ops,
+  NoDup (subs (run ops empty)) /\ NoDup (watches (run ops empty)).
+Proof. exact views_are_sets. Qed.
+
+(* "... and the subscription graph has no cycle" *)
+Theorem C17_acyclic : forall ops x,
+  ~ clos_trans nat (watches_rel (run ops empty)) x x.
+Proof. exact graph_acyclic. Qed.
+
+(* "a subscription that would close a cycle is refused and leaves the registry
+   unchanged" — subscribe: if the graph with the new edge has a cycle, the
+   operation raises SubscriptionCycle and the state is the same state *)
+Theorem C17_subscribe_cycle_refused : forall ops sb r x,
+  let s := run ops empty in
+  clos_trans nat (fun a b => In (a, b) (dadd sb r (watches s))) x x ->
+  step (OSubscribe sb r) s = (s, Raised Cycle).
+Proof. exact subscribe_cycle_refused. Qed.
+
+(* ... subscribe_only_to: if the graph in which sb's watch set is REPLACED by
+   rs has a cycle, the operation raises and the state is the same state (no
+   partial edges) *)
+Theorem C17_subscribe_only_cycle_refused : forall ops sb rs x,
+  let s := run ops empty in
+  clos_trans nat (fun a b => In (a, b) (dassign sb rs (watches s))) x x ->
+  step (OSubscribeOnly sb rs) s = (s, Raised Cycle).
+Proof. exact subscribe_only_cycle_refused. Qed.
+
+(* ... whatever operation reports a cycle, in whatever state: nothing changed *)
+Theorem C17_refused_unchanged : forall o s s',
+  step o s = (s', Raised Cycle) -> s' = s.
+Proof. exact refused_unchanged. Qed.
+
+(* (and the check is not over-cautious: it refuses only real cycles) *)
+Theorem C17_subscribe_refused_only_if_cycle : forall sb r s s',
+  step (OSubscribe sb r) s = (s', Raised Cycle) ->
+  clos_trans nat (fun a b => In (a, b) (dadd sb r (watches s))) sb sb.
+Proof. exact subscribe_refused_only_if_cycle. Qed.
+
+Theorem C17_subscribe_only_refused_only_if_cycle : forall sb rs s s',
+  step (OSubscribeOnly sb rs) s = (s', Raised Cycle) ->
+  clos_trans nat (fun a b => In (a, b) (dassign sb rs (watches s))) sb sb.
+Proof. exact subscribe_only_refused_only_if_cycle. Qed.
+
+(* termination of _check_for_cycles: its `while to_check` loop is modelled with
+   fuel = number of resources in the graph + 2; on every reachable state the
+   fuel is never exhausted (acyclicity is the termination argument) *)
+Theorem C17_check_terminates : forall ops sb rs,
+  check_for_cycles (watches (run ops empty)) sb rs <> OutOfFuel.
+Proof. exact check_terminates. Qed.
+
+(* no operation fails in an unexpected way on a reachable state: no fuel
+   exhaustion, no ValueError from task_done, and KeyError only from
+   unsubscribe of an edge that is not there (which then changes nothing) *)
+Theorem C17_step_results : forall ops o,
+  let s := run ops empty in
+  snd (step o s) <> ROutOfFuel /\ snd (step o s) <> Raised ValueError /\
+  snd (step o s) <> Raised OtherExn /\
+  (snd (step o s) = Raised KeyError ->
+     exists u r, o = OUnsubscribe u r /\ ~ In (r, u) (subs s) /\ fst (step o s) = s).
+Proof. exact step_results. Qed.
+
+(* "A notification is delivered exactly once to each current subscriber that
+   has a live queue and to nobody else, notifying never fails because some
+   subscriber was killed or deregistered":
+   notify returns normally; both views and the queue dict are unchanged; a
+   queue object that belongs to a current subscriber of n and is not shut down
+   gains exactly the one event (n, t) on top; every other queue object ever
+   created (killed, deregistered, or not a subscriber's) is unchanged *)
+Theorem C17_notify_exact : forall ops n t,
+  let s := run ops empty in
+  let s' := fst (step (ONotify n t) s) in
+  snd (step (ONotify n t) s) = RNone /\
+  subs s' = subs s /\ watches s' = watches s /\ queues s' = queues s /\
+  List.length (heap s') = List.length (heap s) /\
+  forall q qu, nth_error (heap s) q = Some qu ->
+    (live_target s n q -> nth_error (heap s') q = Some (push (ERes n t) qu)) /\
+    (~ live_target s n q -> nth_error (heap s') q = Some qu).
+Proof. exact notify_exact. Qed.
+
+(* every resource has its own queue object, so "once per queue" is "once per subscriber" *)
+Theorem C17_queues_private : forall ops a b q,
+  let s := run ops empty in
+  lookup a (queues s) = Some q -> lookup b (queues s) = Some q -> a = b.
+Proof. exact queues_private. Qed.
+
+(* "deregistering releases everything waiting on that resource's queue":
+   deregister returns normally; the resource has no queue entry and watches
+   nothing afterwards (in either view); its old queue object is shut down,
+   empty, and no undelivered item is left counted as unfinished ([released]);
+   its subscribers are notified exactly as by notify; all other queues are
+   unchanged *)
+Theorem C17_deregister_releases : forall ops r t,
+  let s := run ops empty in
+  let s' := fst (step (ODeregister r t) s) in
+  snd (step (ODeregister r t) s) = RNone /\
+  lookup r (queues s') = None /\
+  (forall b, ~ In (r, b) (watches s')) /\ (forall a, ~ In (a, r) (subs s')) /\
+  List.length (heap s') = List.length (heap s) /\
+  (forall q qu, lookup r (queues s) = Some q -> nth_error (heap s) q = Some qu ->
+     nth_error (heap s') q = Some (released qu)) /\
+  (forall q qu, lookup r (queues s) <> Some q -> nth_error (heap s) q = Some qu ->
+     (live_target s r q -> nth_error (heap s') q = Some (push (ERes r t) qu)) /\
+     (~ live_target s r q -> nth_error (heap s') q = Some qu)).
+Proof. exact deregister_releases. Qed.
+
+(* ... so a consumer that is (or goes) waiting on the old queue gets QueueShutDown *)
+Theorem C17_released_get_raises : forall s q qu (d : bool),
+  nth_error (heap s) q = Some (released qu) ->
+  step (if d then OGetDone q else OGet q) s = (s, Raised QueueShutDown).
+Proof. exact released_get_raises. Qed.
+
+(* registering an already registered resource returns its queue and notifies nobody *)
+Theorem C17_register_again : forall r t s q,
+  lookup r (queues s) = Some q -> step (ORegister r t) s = (s, RQueue q).
+Proof. exact register_again. Qed.
+
+(* non-vacuity: a history with a chain 0 -> 2, 1 -> 2, a killed subscriber and
+   a live one.  The cycle-closing subscriptions are refused, the notification
+   reaches resource 0's queue only, and deregistering 0 empties and shuts its
+   queue and clears its edges. *)
+Example C17_nonvacuous :
+  let ops := [ORegister 0 1; ORegister 1 2; ORegister 2 3; OSubscribe 0 2; OSubscribe 1 2;
+              ONotify 2 4; OKill 1] in
+  let s := run ops empty in
+  watches s = [(1, 2); (0, 2)] /\ subs s = [(2, 1); (2, 0)] /\
+  step (OSubscribe 2 0) s = (s, Raised Cycle) /\
+  step (OSubscribeOnly 2 [1; 2]) s = (s, Raised Cycle) /\
+  live_target s 2 0 /\ ~ live_target s 2 1 /\
+  heap (fst (step (ONotify 2 5) s)) =
+    [Q [ERes 2 5; ERes 2 4] false 2; Q [EKill; ERes 2 4] true 2; Q [] false 0] /\
+  (let s' := fst (step (ODeregister 0 6) s) in
+   watches s' = [(1, 2)] /\ subs s' = [(2, 1)] /\ queues s' = [(2, 2); (1, 1)] /\
+   nth_error (heap s') 0 = Some (Q [] true 0)).
+Proof.
+  vm_compute. repeat split.
+  - exists 0, (Q [ERes 2 4] false 1). vm_compute. auto.
+  - intros (r & qu & Hr & L & Hq & Sh). vm_compute in Hr, L, Hq.
+    destruct Hr as [Hr|[Hr|[]]]; injection Hr as <-; vm_compute in L; try discriminate.
+    injection Hq as <-. discriminate.
+Qed.
+
+Print Assumptions C17_views_inverse.
+Print Assumptions C17_views_are_sets.
+Print Assumptions C17_acyclic.
+Print Assumptions C17_subscribe_cycle_refused.
+Print Assumptions C17_subscribe_only_cycle_refused.
+Print Assumptions C17_refused_unchanged.
+Print Assumptions C17_subscribe_refused_only_if_cycle.
+Print Assumptions C17_subscribe_only_refused_only_if_cycle.
+Print Assumptions C17_check_terminates.
+Print Assumptions C17_step_results.
+Print Assumptions C17_notify_exact.
+Print Assumptions C17_queues_private.
+Print Assumptions C17_deregister_releases.
+Print Assumptions C17_released_get_raises.
+Print Assumptions C17_register_again.
